@@ -475,6 +475,54 @@ def mfpca_nested_monitor(rep, data):
                                "data_values": [C.hexf(np.asarray(c.values)) for c in data.data]})
 
 
+def mfpca_2d_monitor(rep):
+    """MFPCA on a curve component and an IMAGE component (square grid, non-symmetric images), both methods: score column k is the
+    projection of the centred observations on eigenfunction k (sum over the components of the L2 inner products) — i.e. the
+    eigenfunction reported in place k, with its axes in the order of the data, is the one its score column and eigenvalue belong to."""
+    from FDApy.preprocessing.dim_reduction.mfpca import MFPCA
+    from harness import fd as _fd
+    rng = np.random.default_rng([C.seed(), 1, 11])
+    n = 9
+    x = np.linspace(0, 1, 9)
+    g = np.array([0.0, 0.2, 0.45, 0.7, 1.0])
+    lat = np.round(rng.normal(size=(n, 3)) * np.array([2.0, 1.0, 0.5]) * 16) / 16
+    X1 = lat @ np.array([np.sin(np.pi * x), np.cos(np.pi * x), x]) + 0.01 * rng.normal(size=(n, 9))
+    B = np.array([np.outer(np.sin(np.pi * g), g ** 2), np.outer(g, np.cos(2 * g)), np.outer(np.ones(5), g)])
+    X2 = np.einsum("nk,kij->nij", lat, B) + 0.01 * rng.normal(size=(n, 5, 5))
+    for method, how in (("inner-product", "InnPro"), ("covariance", "NumInt")):
+        data = _fd.multivariate([_fd.dense(x, X1), _fd.dense([g, g], X2)])
+        try:
+            with warnings.catch_warnings():
+                warnings.simplefilter("ignore")
+                kw = {} if method == "inner-product" else {"univariate_expansions": [{"method": "UFPCA", "n_components": 3},
+                                                                                      {"method": "UFPCA", "n_components": 3}]}
+                f = MFPCA(n_components=2, method=method, **kw)
+                f.fit(data, method_smoothing=None) if method == "inner-product" else f.fit(data)
+                E = [np.asarray(c.values, float) for c in f.eigenfunctions.to_grid().data] if method == "covariance" \
+                    else [np.asarray(c.values, float) for c in f.eigenfunctions.data]
+                sc = np.asarray(f.transform(method=how), float)
+        except Exception as e:  # noqa: BLE001
+            rep.notes.append(f"MFPCA({method}) on curve + image components raised {type(e).__name__}: {e}"[:160]) if len(rep.notes) < 12 else None
+            continue
+        if len(E) != 2 or E[0].shape != (2, 9) or E[1].shape != (2, 5, 5) or sc.shape != (n, 2) or not np.all(np.isfinite(sc)):
+            rep.violation(f"MFPCA({method}) on a curve and an image component: eigenfunctions / scores have shapes "
+                          f"{[e.shape for e in E]} / {sc.shape}", {"level": "api", "estimator": "MFPCA", "method": method,
+                                                                 "data_values": [C.hexf(X1), C.hexf(X2)]})
+            continue
+        c1, c2 = X1 - X1.mean(axis=0), X2 - X2.mean(axis=0)
+        rep.case(("mfpca-2d", method, X2.tobytes()), kind=f"MFPCA-image-component/{method}")
+        for k in range(2):
+            proj = np.trapz(c1 * E[0][k][None], x, axis=1) + np.trapz(np.trapz(c2 * E[1][k][None], g, axis=2), g, axis=1)
+            r = abs(float(np.corrcoef(proj, sc[:, k])[0, 1]))
+            if not r > 0.99:
+                rep.violation(f"MFPCA({method}) on a curve and an image component: score column {k} is not the projection of the centred "
+                              f"observations on eigenfunction {k} (|correlation| {r:.3f}): eigenfunction {k} is not the one its score column "
+                              f"and eigenvalue belong to (image axes swapped?)",
+                              {"level": "api", "estimator": "MFPCA", "method": method, "component": k,
+                               "data_values": [C.hexf(X1), C.hexf(X2)]})
+                break
+
+
 def pairing_monitor(rep, data, val, fun, s, grid):
     """Each eigenfunction stays paired with ITS eigenvalue: C (w . phi_k) = lambda_k phi_k (covariance method)."""
     from FDApy.misc.utils import _integration_weights
@@ -629,6 +677,7 @@ def run(rep, props, replay=None):
     helper_level(rep, rng, quick)
     select_level(rep, rng, quick)
     unit_monitor(rep)
+    mfpca_2d_monitor(rep)
     api_level(rep, rng, quick)
 
 
